@@ -176,7 +176,11 @@ func (r *Run) finish(verif string, known *knownFile, seed int64) int {
 			kf[k.Rule+"\x00"+k.Construct] = k
 		}
 	}
-	replayDir := filepath.Join(verif, "evidence", "replay")
+	outDir := filepath.Join(verif, "evidence")
+	if o := os.Getenv("PVCHECK_OUT"); o != "" {
+		outDir = o
+	}
+	replayDir := filepath.Join(outDir, "replay")
 	os.MkdirAll(replayDir, 0o755)
 	old, _ := filepath.Glob(filepath.Join(replayDir, r.ID+".*.json"))
 	for _, f := range old {
@@ -295,8 +299,8 @@ func (r *Run) finish(verif string, known *knownFile, seed int64) int {
 		"violations": nViol,
 	}
 	b, _ := json.MarshalIndent(ev, "", " ")
-	os.MkdirAll(filepath.Join(verif, "evidence"), 0o755)
-	if err := os.WriteFile(filepath.Join(verif, "evidence", r.ID+".json"), b, 0o644); err != nil {
+	os.MkdirAll(outDir, 0o755)
+	if err := os.WriteFile(filepath.Join(outDir, r.ID+".json"), b, 0o644); err != nil {
 		fmt.Fprintf(os.Stderr, "cannot write evidence: %v\n", err)
 		return nViol + 1
 	}
